@@ -1147,6 +1147,13 @@ fn raw_segment(payload: &Payload) -> Option<(Shape, Vec<u8>)> {
             Some((Shape::Vec(Box::new(Shape::Elem(*as_))), b))
         }
         Payload::RawField { which, bytes, flag } => Some((Shape::Field(*which, *flag), unhex(bytes)?)),
+        Payload::RawVecField { which, items } => {
+            let mut b = (items.len() as u64).to_le_bytes().to_vec();
+            for it in items {
+                b.extend_from_slice(&unhex(it)?);
+            }
+            Some((Shape::Vec(Box::new(Shape::Field(*which, FlagV::Plain))), b))
+        }
         _ => None,
     }
 }
@@ -1172,7 +1179,7 @@ fn blame(job: &SendJob, expected: &[u8], got: &[u8]) -> &'static str {
     job.prop
 }
 
-fn do_fmt(ctx: &mut Ctx, pool: &[PoolEntry], idx: usize, affine: bool, debug: bool, fail_at: Option<usize>) {
+fn do_fmt(ctx: &mut Ctx, pool: &[PoolEntry], idx: usize, affine: bool, debug: bool, fail_at: Option<usize>, alternate: bool) {
     use std::fmt::Write as _;
     let p = elem_entry(pool, idx);
     let tag = match &p.tag {
@@ -1191,17 +1198,23 @@ fn do_fmt(ctx: &mut Ctx, pool: &[PoolEntry], idx: usize, affine: bool, debug: bo
     let mut sink = SimFmtSink::new(fail_at);
     let e = p.e;
     let a: AffinePoint = p.a.unwrap_or_else(|| p.e.into());
-    let r = catch_unwind(AssertUnwindSafe(|| match (affine, debug) {
-        (false, false) => write!(sink, "{}", e),
-        (false, true) => write!(sink, "{:?}", e),
-        (true, false) => write!(sink, "{}", a),
-        (true, true) => write!(sink, "{:?}", a),
+    // the alternate flag is what `dbg!` and `{:#?}` on any containing struct pass down
+    let r = catch_unwind(AssertUnwindSafe(|| match (affine, debug, alternate) {
+        (false, false, false) => write!(sink, "{}", e),
+        (false, true, false) => write!(sink, "{:?}", e),
+        (true, false, false) => write!(sink, "{}", a),
+        (true, true, false) => write!(sink, "{:?}", a),
+        (false, false, true) => write!(sink, "{:#}", e),
+        (false, true, true) => write!(sink, "{:#?}", e),
+        (true, false, true) => write!(sink, "{:#}", a),
+        (true, true, true) => write!(sink, "{:#?}", a),
     }));
     ctx.out.steps += sink.calls as u64;
     let what = format!(
-        "{}{}",
+        "{}{}{}",
         if affine { "AffinePoint" } else { "Element" },
-        if debug { ":Debug" } else { ":Display" }
+        if debug { ":Debug" } else { ":Display" },
+        if alternate { "#" } else { "" }
     );
     ctx.ev(&what);
     match r {
@@ -1328,8 +1341,8 @@ fn send_all(ctx: &mut Ctx, run: &IoRun, pool: &[PoolEntry], fpool: &[FEntry]) ->
             do_uncompressed_ser(ctx, pool, *idx, *as_, &rec.wplan);
             continue;
         }
-        if let Payload::Fmt { idx, affine, debug, fail_at } = &rec.payload {
-            do_fmt(ctx, pool, *idx, *affine, *debug, *fail_at);
+        if let Payload::Fmt { idx, affine, debug, fail_at, alternate } = &rec.payload {
+            do_fmt(ctx, pool, *idx, *affine, *debug, *fail_at, *alternate);
             continue;
         }
         if let Some((shape, bytes)) = raw_segment(&rec.payload) {
